@@ -12,6 +12,7 @@ From Chess3 Require Export Model.SeqStreams.
 From Chess3 Require Export Spec.SnapJudge.
 From Chess3 Require Export Model.TT Spec.TTSpec.
 From Chess3 Require Export Model.Hist Model.Picker Spec.PickerSpec.  (* C16 *)
+From Chess3 Require Export Model.PickerSession Spec.PickerSessionSpec.  (* C16, store sessions *)
 From Chess3 Require Export Model.FenStreams.
 From Chess3 Require Export Model.FenSeq.
 From Chess3 Require Export Spec.FenSpec.
